@@ -1689,7 +1689,6 @@ A locator case is non-trivial when at least one candidate file exists (the loop 
     // ---- D. convert_require between the path and luau modes
     let conv_cases = convert_cases(&cases[..labelled], thorough);
     let conv_outcomes = run_convert_cases(&conv_cases, threads);
-    let f28_known = known_entry(&known, "F28").is_some();
     let f29_known = known_entry(&known, "F29").is_some();
     for o in &conv_outcomes {
         let cc = &conv_cases[o.idx];
@@ -1700,27 +1699,23 @@ A locator case is non-trivial when at least one candidate file exists (the loop 
             _ => "luau->path",
         };
         report.hist("convert-direction", direction);
-        // model answer: none | arg <hex> found <wire> hconv <b> again <wire>
-        let (model_arg, hconv) = if o.model == "none" {
-            (None, None)
+        // model answer: none | arg <hex> found <wire> again <wire>
+        let model_arg = if o.model == "none" {
+            None
         } else {
-            let arg = o.model.strip_prefix("arg ").and_then(|r| r.split(' ').next()).and_then(crate::model::unhex).map(|b| String::from_utf8_lossy(&b).into_owned());
-            let h = o.model.split(" hconv ").nth(1).and_then(|r| r.split(' ').next()).map(|b| b == "true");
-            (arg, h)
+            o.model.strip_prefix("arg ").and_then(|r| r.split(' ').next()).and_then(crate::model::unhex).map(|b| String::from_utf8_lossy(&b).into_owned())
         };
         let mut input = case.to_json();
         input["op"] = json!("conv");
         input["target"] = mode_to_json(&cc.target);
         if let Some(what) = &o.oracle {
-            let region = if hconv == Some(false) {
-                "F28"
-            } else if what.starts_with("[shadowed]") {
+            let region = if what.starts_with("[shadowed]") {
                 "F29"
             } else {
                 ""
             };
             report.hist("convert-oracle", if region.is_empty() { "fails" } else { region });
-            let excused = (region == "F28" && f28_known) || (region == "F29" && f29_known);
+            let excused = region == "F29" && f29_known;
             if !excused {
                 report.violation(Violation { kind: s("oracle"), check: format!("convert-keeps-target/{}", direction), what: what.clone(), input: input.clone(), failing_input_found: true });
             }
@@ -1983,10 +1978,9 @@ fn check_corpus_entry(report: &mut Report, model: &mut Model, v: &Value, known: 
                 let (before, failure) = convert_oracle(&case, &target, &arg);
                 let m = model.ask(&format!("c15.conv {} {} {} {} {} {}", mode_wire(&case.mode), mode_wire(&target), hx(&case.proj), list_wire(&case.files), hx(&case.source), hx(&case.req)));
                 report.case(Some(("corpus-conv", input.to_string())));
-                let hconv = m.split(" hconv ").nth(1).and_then(|r| r.split(' ').next()).map(|b| b == "true");
                 let model_arg = m.strip_prefix("arg ").and_then(|r| r.split(' ').next()).and_then(crate::model::unhex).map(|b| String::from_utf8_lossy(&b).into_owned());
                 let shadowed = failure.as_deref().map(|w| w.starts_with("[shadowed]")).unwrap_or(false);
-                let excused = (hconv == Some(false) && known_entry(known, "F28").is_some()) || (shadowed && known_entry(known, "F29").is_some());
+                let excused = shadowed && known_entry(known, "F29").is_some();
                 if let Some(what) = failure.filter(|_| !excused) {
                     report.violation(Violation { kind: s("oracle"), check: s("corpus/convert"), what, input: input.clone(), failing_input_found: true });
                 } else if before.is_some() && arg.as_ref().ok() != model_arg.as_ref() {
